@@ -22,10 +22,10 @@ def plan(tier, seed):
 
 def thresholds(tier):
   t = {"objects_roundtripped": 20000, "hierarchies": 400, "slice_objects": 500, "held_slice_handles_checked": 2000, "field_objects": 1000,
-       "list_element_objects": 3000, "method_port_objects": 200, "interface_objects": 500, "reelaborations": 400, "lock_unlock_histories": 300, "list_construction_designs": 60, "fieldname_designs": 60}
+       "list_element_objects": 3000, "method_port_objects": 200, "interface_objects": 500, "reelaborations": 400, "lock_unlock_histories": 300, "list_construction_designs": 30, "fieldname_designs": 60}
   if tier == "thorough":
     t = {k: v * 12 for k, v in t.items()}
-    t["list_construction_designs"] = 300; t["fieldname_designs"] = 300
+    t["list_construction_designs"] = 150; t["fieldname_designs"] = 300
   return t
 
 
@@ -415,6 +415,14 @@ class LTop(Component):
       s.regs = [LReg() for _ in range(n)]
       s.w = Wire(8); s.w //= s.in_
       s.w = 0                       # a typo for  s.w //= 0
+    elif how in ("insert-then-plus-equal", "reverse-then-plus-equal", "pop-then-plus-equal"):
+      # the list is changed IN PLACE after it was assigned, then handed over again with +=
+      s.regs = [LReg() for _ in range(n)]
+      s.ws = [Wire(8) for _ in range(3)]
+      if how[0] == "i": s.ws.insert(0, Wire(8))
+      elif how[0] == "r": s.ws.reverse()
+      else: s.ws.pop(0)
+      s.ws += [Wire(8)]
     elif how == "append-spare":
       # the late elements are not touched again by construct()
       s.regs = [LReg() for _ in range(n)]
@@ -436,7 +444,8 @@ def run_listbuild_case(sh, case):
   hook - the design is refused, or every object still has a name that evaluates back"""
   from vlib import specgen as G
   rng = sh.rng("listbuild", case)
-  how = rng.choice(["assign-complete", "plus-equal", "plus-equal", "plus-equal-wires", "append-after", "setitem-after", "append-spare", "setitem-spare", "overwrite-with-int"])
+  how = rng.choice(["assign-complete", "plus-equal", "plus-equal", "plus-equal-wires", "append-after", "setitem-after", "append-spare", "setitem-spare", "overwrite-with-int",
+                    "insert-then-plus-equal", "reverse-then-plus-equal", "pop-then-plus-equal"])
   n = rng.randrange(2, 6)
   mod = G.load_source(LISTBUILD_SRC, "c14lb")
   try:
@@ -452,6 +461,11 @@ def run_listbuild_case(sh, case):
     comps = [o for o in objs if type(o).__name__ == "LReg"]
     if len(comps) != n and "spare" not in how:
       sh.violation("hardware-object-of-a-list-is-missing-from-the-hierarchy", {"how": how, "n": n, "components_found": len(comps)}, case=("listbuild", case)); return
+    if hasattr(top, "ws"):
+      # the wires really in the list are objects of the design, each under its own name
+      for i_, w_ in enumerate(top.ws):
+        if w_ not in objs or repr(w_) != f"s.ws[{i_}]":
+          sh.violation("list-element-name-does-not-say-where-it-is", {"how": how, "position": i_, "name": repr(w_), "in_hierarchy": w_ in objs}, case=("listbuild", case)); return
     for o in objs:
       r = repr(o); sh.count("objects_roundtripped")
       try: back = eval(r, {"s": top})
